@@ -2,6 +2,7 @@ package main
 
 import (
 	"os"
+	"regexp"
 	"fmt"
 	"go/types"
 	"sort"
@@ -199,7 +200,50 @@ func init() {
 			}},
 		Rule{ID: "C11.n", Explain: "no failure is dropped while making and checking non-revocation proofs and witnesses (revocation/proof.go and the non-revocation parts of credential.go) (same rule as C08.g: the error a call returns has a use - a nil test or a return - before it is overwritten, shadowed or left behind).",
 			Run: func(P *Program, R *Report) { errorResultsUsedRule(P, R, "C11.n", inFiles(P, "revocation/proof.go", "credential.go"), nil, 10) }},
+		Rule{ID: "C11.o", Explain: "a prepared commitment follows a re-signed accumulator of the same index: NonRevocationProofBuilder.UpdateCommit leaves the commitment (and the signed accumulator it carries into the proof) alone unless the witness' index grew, so Witness.Update may replace the witness' SignedAccumulator pointer only where the index changed; a same-index refresh writes through the existing pointer, which the prepared commitment shares.",
+			Run: func(P *Program, R *Report) { sameIndexRefreshRule(P, R, "C11.o") }},
 	)
+}
+
+var indexDiffers = regexp.MustCompile(`^(ourAcc|newAcc)\.Index(\+1)?\|int\|(!=|<|>)\|(ourAcc|newAcc)\.Index(\+1)?$`)
+
+func sameIndexRefreshRule(P *Program, R *Report, rule string) {
+	uc := mustFunc(P, R, rule, "gabi.(*NonRevocationProofBuilder).UpdateCommit")
+	fn := mustFunc(P, R, rule, kWitUpdate)
+	if uc == nil || fn == nil {
+		return
+	}
+	// does UpdateCommit have a quiet path (nil without ProofCommit.Update)?
+	refresh := (&MustPass{P: P, Instr: func(_ *ssa.Function, i ssa.Instruction) bool {
+		c, ok := i.(*ssa.Call)
+		return ok && calleeIs(c, "revocation.(*ProofCommit).Update")
+	}})
+	r := refresh.Check(uc, AcceptNilErr(0))
+	if r.Holds {
+		R.decide(rule, "gabi.(*NonRevocationProofBuilder).UpdateCommit:always-refreshes", "UpdateCommit refreshes the commitment on every successful call: no pairing obligation", true, "", P.Pos(uc.Pos()))
+		return
+	}
+	R.decide(rule, "gabi.(*NonRevocationProofBuilder).UpdateCommit:skips-unless-index-grew", "UpdateCommit has a quiet path (the pairing below is what keeps the carried accumulator current on it)", true, r.Path, P.Pos(uc.Pos()))
+	be := P.bigEval(fn)
+	canon := func(a Atom) string {
+		_, t := reasonOf(a, be)
+		t = newAccCall.ReplaceAllString(t, "newAcc")
+		return strings.ReplaceAll(t, "<revocation.Witness>.SignedAccumulator.Accumulator", "ourAcc")
+	}
+	n := 0
+	allInstrs(fn, func(i ssa.Instruction) {
+		st, ok := i.(*ssa.Store)
+		if !ok || desc(st.Addr) != "<revocation.Witness>.SignedAccumulator" {
+			return
+		}
+		if _, isPtr := st.Val.Type().Underlying().(*types.Pointer); !isPtr {
+			return
+		}
+		n++
+		q := (&MustPass{P: P, NoInterproc: true, Match: func(a Atom) bool { return indexDiffers.MatchString(canon(a)) }}).MustReach(fn, st)
+		R.decide(rule, kWitUpdate+":pointer-replaced-only-when-index-changed", "the witness' SignedAccumulator pointer is replaced only on paths where the accumulator index changed (same index: the pointee is overwritten, so that a prepared commitment sharing it reads the new signature and time)", q.Holds, q.Path, P.Pos(st.Pos()))
+	})
+	R.decide(rule, kWitUpdate+":pointer-stores", "stores of a new SignedAccumulator pointer into the witness were found (>= 1)", n >= 1, fmt.Sprintf("%d", n), P.Pos(fn.Pos()))
 }
 
 func revocationVerifyRule(P *Program, R *Report) {
